@@ -6,6 +6,7 @@ import (
 	"bufio"
 	"fmt"
 	"io"
+	"os"
 	"os/exec"
 	"strconv"
 	"strings"
@@ -31,6 +32,7 @@ type Solver struct {
 	Time    time.Duration
 	Errors  []string
 	dead    bool
+	log     io.Writer
 }
 
 // StartSolver starts kind = "z3" | "z3-new" | "cvc5" with a per-query timeout.
@@ -57,6 +59,11 @@ func StartSolver(kind string, timeoutMs int) (*Solver, error) {
 		return nil, err
 	}
 	s := &Solver{name: kind, cmd: cmd, in: in, out: bufio.NewReaderSize(outp, 1<<16)}
+	if d := os.Getenv("GOSYM_LOG"); d != "" {
+		if f, err := os.CreateTemp(d, "solver-*.smt2"); err == nil {
+			s.log = f
+		}
+	}
 	if kind == "cvc5" {
 		s.Send("(set-logic ALL)\n")
 	}
@@ -67,6 +74,9 @@ func StartSolver(kind string, timeoutMs int) (*Solver, error) {
 func (s *Solver) Send(txt string) {
 	if s.dead {
 		return
+	}
+	if s.log != nil {
+		io.WriteString(s.log, txt)
 	}
 	if _, err := io.WriteString(s.in, txt); err != nil {
 		s.dead = true
